@@ -80,6 +80,8 @@ def object_events(entry, enc, tid0, rng, quick, run):
             run.violate(dname, "decoder_construction_raised", dict(entry.config(), decoder=dname), {"object": entry.name, "error": repr(e)[:200]})
             continue
         budget = (400 if dname in slow else 3000) if quick else (500 if dname in slow else 3000)
+        if dname == "BerlekampMasseyDecoder" and n > 15 and not quick:
+            budget = 250                        # pure-Python field arithmetic: ~50 ms per word at n = 31
         if entry.component in ("ReedSolomonCodeEncoder",) or dname == "ReedMullerDecoder":
             budget = min(budget, 200)           # components with a listed finding: enough cases to re-confirm it
         pats = patterns(n, t, 200 if not quick else 60, rng)
